@@ -14,6 +14,7 @@ import (
 // Caps is the set of optional capabilities a simulated connection offers.
 type Caps struct {
 	ReaderFrom, Flusher, FlushError, Hijacker, Pusher, ReadDeadline, WriteDeadline, FullDuplex bool
+	Unwrap bool // only with no capability at all: the writer has Unwrap() leading to a writer that offers everything
 }
 
 // ConnEvent is one entry of the connection's own log: what really reached the "wire".
@@ -192,6 +193,25 @@ func (f fdT) EnableFullDuplex() error {
 	return f.Conn.capResult()
 }
 
+type unwT struct{ *Conn }
+
+func (u unwT) Unwrap() http.ResponseWriter { return decoyT{u.Conn} }
+
+// decoyT is what a capability-less writer unwraps to: every optional capability, each call recorded as "decoy:<kind>".
+type decoyT struct{ *Conn }
+
+func (d decoyT) note(kind string) { d.Conn.Events = append(d.Conn.Events, ConnEvent{Kind: "decoy:" + kind}) }
+func (d decoyT) Flush()            { d.note("flush") }
+func (d decoyT) FlushError() error { d.note("flusherror"); return nil }
+func (d decoyT) Hijack() (net.Conn, *bufio.ReadWriter, error) {
+	d.note("hijack")
+	return nil, nil, nil
+}
+func (d decoyT) Push(string, *http.PushOptions) error { d.note("push"); return nil }
+func (d decoyT) SetReadDeadline(time.Time) error      { d.note("rdeadline"); return nil }
+func (d decoyT) SetWriteDeadline(time.Time) error     { d.note("wdeadline"); return nil }
+func (d decoyT) EnableFullDuplex() error              { d.note("fullduplex"); return nil }
+
 // Wrap returns a writer offering exactly caps. Supported combinations: any subset of {ReaderFrom, Flusher|FlushError}
 // alone, or "all" / "none" for the remaining capabilities (Hijacker, Pusher, deadlines, full duplex as a group).
 func (c *Conn) Wrap(caps Caps) http.ResponseWriter {
@@ -199,6 +219,13 @@ func (c *Conn) Wrap(caps Caps) http.ResponseWriter {
 	type W = http.ResponseWriter
 	rf, fl, fe := caps.ReaderFrom, caps.Flusher, caps.FlushError
 	switch {
+	case !group && !rf && !fl && !fe && caps.Unwrap:
+		// offers nothing itself, but wraps (Unwrap) a writer that offers everything: the capabilities of "the underlying
+		// writer" are those of the writer handed over, not of what it may wrap
+		return struct {
+			W
+			unwT
+		}{c, unwT{c}}
 	case !group && !rf && !fl && !fe:
 		return struct{ W }{c}
 	case !group && rf && !fl && !fe:
